@@ -4,6 +4,7 @@ import (
 	"fmt"
 	"go/types"
 	"reflect"
+	"regexp"
 	"strconv"
 	"strings"
 )
@@ -30,9 +31,11 @@ type JSONDoc struct {
 	Doc  interface{} `json:"doc"`
 	Data string      `json:"data"`
 	Keys []string    `json:"keys"`
+	Root string      `json:"root"` // name of the harness draw (frame) the parsed text was derived from
 }
 
 type ContainsVal struct {
+	Root   string `json:"root"`
 	Hay    string `json:"hay"`
 	Needle string `json:"needle"`
 	Val    bool   `json:"val"`
@@ -173,6 +176,16 @@ func (st *State) evalVal(v Val, t types.Type) interface{} {
 		if st.evalTerm(x.IsNil).(bool) {
 			return omitT{}
 		}
+		if isRawMessage(t) {
+			n := int(st.evalTerm(x.Len).(uint64))
+			buf := []byte{}
+			for i := 0; i < n && x.Arr != nil && x.Off+i < len(x.Arr.Elems); i++ {
+				if bt, ok := st.load(x.Arr.Elems[x.Off+i]).(*Term); ok {
+					buf = append(buf, byte(st.evalTerm(bt).(uint64)))
+				}
+			}
+			return map[string]interface{}{"__raw": string(buf)}
+		}
 		n := int(st.evalTerm(x.Len).(uint64))
 		out := []interface{}{}
 		for i := 0; i < n && x.Arr != nil && x.Off+i < len(x.Arr.Elems); i++ {
@@ -197,10 +210,33 @@ func (st *State) evalVal(v Val, t types.Type) interface{} {
 	return fmt.Sprintf("<%T>", v)
 }
 
+var rootRe = regexp.MustCompile(`\bmsg(![0-9]+)?\b`)
+
+// rootOf follows uninterpreted-function results back to the frame variable (msg, msg!1, ...) they derive from.
+func (st *State) rootOf(text string) string {
+	for depth := 0; depth < 6; depth++ {
+		if m := rootRe.FindString(text); m != "" {
+			return m
+		}
+		next := ""
+		for name, arg := range st.ufArg {
+			if strings.Contains(text, name) && len(name) > len(next) {
+				next = name
+				_ = arg
+			}
+		}
+		if next == "" {
+			return ""
+		}
+		text = st.ufArg[next]
+	}
+	return ""
+}
+
 func (st *State) concretizeJSON() ([]JSONDoc, []ContainsVal) {
 	var docs []JSONDoc
 	for _, jc := range st.jsonCalls {
-		d := JSONDoc{Type: typeStr(jc.T), Data: jc.Data}
+		d := JSONDoc{Type: typeStr(jc.T), Data: jc.Data, Root: st.rootOf(jc.Data)}
 		if i := strings.LastIndex(d.Type, "."); i >= 0 {
 			d.Type = d.Type[i+1:]
 		}
@@ -227,7 +263,7 @@ func (st *State) concretizeJSON() ([]JSONDoc, []ContainsVal) {
 	}
 	var cs []ContainsVal
 	for _, c := range st.containsObs {
-		cs = append(cs, ContainsVal{Hay: c.Hay, Needle: c.Needle, Val: st.evalTerm(c.T).(bool)})
+		cs = append(cs, ContainsVal{Root: st.rootOf(c.Hay), Hay: c.Hay, Needle: c.Needle, Val: st.evalTerm(c.T).(bool)})
 	}
 	return docs, cs
 }
